@@ -183,13 +183,10 @@ func hasFoldCase(re *syntax.Regexp) bool {
 	return false
 }
 
-// knownRegexDefect names the known-finding class a regular expression falls in ("" = none).
-// The anchors are judged on the pattern as written (a group hides what follows an anchor from the index's
+// legacyRegexDefect: the first, symptom-derived classifier (kept as an additional structural stage and as the
+// source of the class names where it applies). The anchors are judged on the pattern as written (a group hides what follows an anchor from the index's
 // first simplification pass); the literal-prefix and alternatives rules on the flattened form.
-func knownRegexDefect(pat string) string {
-	if noExclusions {
-		return ""
-	}
+func legacyRegexDefect(pat string) string {
 	if strings.ContainsAny(pat, "\x00\x01\x02") {
 		// literal text is compared with the escaped form of stored values
 		return "regex_containing_bytes_0_1_2"
